@@ -65,10 +65,13 @@ impl impl_details::CacheImplDetails for MemoryStore {
         if record.header.timestamp + (record.header.time_to_live as u64) > current_time {
             return false;
         }
-        match self.remove(key) {
-            Some(_) => true,
-            None => true,
-        }
+        // remove a record only if it is still an expired one: the key may have
+        // been stored again by another client since record was read
+        self.memory.remove_if(key, |_key, stored| {
+            stored.header.time_to_live != 0
+                && stored.header.timestamp + (stored.header.time_to_live as u64) <= current_time
+        });
+        true
     }
 }
 
